@@ -29,6 +29,10 @@ def register(reg, P):
         "softplus": jax.nn.softplus, "silu": jax.nn.silu, "elu": jax.nn.elu, "leaky": jax.nn.leaky_relu,
     }
 
+    from .families import late
+
+    base = {k: late(v) for k, v in base.items()}
+
     def scalarize(f):
         return lambda x: jnp.sum(f(x))
 
